@@ -98,10 +98,8 @@ fn same(a: &[ReplicaId], b: &[ReplicaId]) -> bool { if a.len() != b.len() { retu
 fn contains(a: &[ReplicaId], x: ReplicaId) -> bool { let mut i = 0; while i < a.len() { if a[i] == x { return true; } i += 1; } false }
 
 /// what: 0 = lookup vs reference and join-order independence, 1 = gossip targets, 2 = removal of one member
-pub fn ring(layout: usize, what: u8) {
+pub fn ring(layout: usize, what: u8, rf: usize) {
     let pos = vs::u64();
-    let rf = vs::usize();
-    vs::assume(rf >= 1 && rf <= 4);
     crate::vs::ring_set(layout, pos);
     if vs::NATIVE { return ring_native(rf, what); }
     let want = if rf < 3 { rf } else { 3 };
